@@ -70,6 +70,8 @@ void require(bool ok, const std::string& label);
 void note(const std::string& key);
 // Extra key=value facts attached to a violation recorded later on this path.
 void fact(const std::string& key, const std::string& value);
+// Names the call about to be made: a crash or timeout report carries it ("signal 11 in <callsite>").
+void at(const char* callsite);
 // True in the concrete replay runtime.
 bool replaying();
 // Give up this path as outside the bound (counted as incomplete, never as passed).
